@@ -55,6 +55,7 @@ fn cmd_fw(args: &[String]) {
     let seed: u64 = arg(args, "--seed").map(|s| s.parse().unwrap()).unwrap_or(1);
     let n: usize = arg(args, "--n").map(|s| s.parse().unwrap()).unwrap_or(100);
     let out = arg(args, "--out").expect("--out");
+    let only: Option<usize> = arg(args, "--only").map(|s| s.parse().unwrap());
     std::fs::create_dir_all(&out).unwrap();
     let mut cases = BufWriter::new(File::create(format!("{}/cases.txt", out)).unwrap());
     let mut implo = BufWriter::new(File::create(format!("{}/impl.out", out)).unwrap());
@@ -69,8 +70,16 @@ fn cmd_fw(args: &[String]) {
     let mut ev_kinds = [0usize; 10];
     for i in 0..n {
         let mut r = master.fork();
+        if let Some(o) = only {
+            if o != i {
+                continue;
+            }
+        }
         let c = props::gen_case(&prop, &mut r);
         let run = fw::run_case(&c);
+        if only.is_some() {
+            writeln!(meta, "replay {}", describe_case(i, &c, &run)).unwrap();
+        }
         let toks = fw::enc_case(&c, &run.tape);
         writeln!(cases, "{}", enc::hex_line(None, &toks)).unwrap();
         for l in &run.lines {
